@@ -65,6 +65,11 @@ func (e *FnExec) describeInputs(name string, v *Term, t types.Type, st *State, d
 		return
 	case *types.Interface:
 		e.inputs = append(e.inputs, NamedTerm{"typeid(" + name + ")", ITag(v), "int"})
+		if depth <= 2 {
+			// the boxed value, read as each basic kind (meaningful for the kind the type id says)
+			e.inputs = append(e.inputs, NamedTerm{"int(" + name + ")", Unbox(v, "Int"), "int"}, NamedTerm{"bool(" + name + ")", Unbox(v, "Bool"), "bool"},
+				NamedTerm{"str(" + name + ")", Unbox(v, StrSort), "string"})
+		}
 		return
 	case *types.Signature, *types.Chan, *types.Array:
 		return
@@ -594,6 +599,11 @@ func (e *FnExec) noteCall(st *State, key string, args []*Term, sig *types.Signat
 	if id, ok := e.calledCell[name]; ok {
 		st.cells[id] = True
 	}
+	if q := e.qualifiedCallName(c, name); q != "" {
+		if id, ok := e.calledCell[q]; ok {
+			st.cells[id] = True
+		}
+	}
 	off := 0
 	if sig.Recv() != nil {
 		off = 1
@@ -607,6 +617,64 @@ func (e *FnExec) noteCall(st *State, key string, args []*Term, sig *types.Signat
 			}
 		}
 	}
+}
+
+// qualifiedCallName: "param.Method" when the call is a method call whose receiver is a
+// parameter of the unit (contracts of table entries tell the left operand's call from the right's).
+func (e *FnExec) qualifiedCallName(c *ssa.CallCommon, name string) string {
+	if c == nil {
+		return ""
+	}
+	var recv ssa.Value
+	if c.IsInvoke() {
+		recv = c.Value
+	} else if len(c.Args) > 0 && c.Signature().Recv() != nil {
+		recv = c.Args[0]
+	}
+	for recv != nil {
+		switch x := recv.(type) {
+		case *ssa.Parameter:
+			return x.Name() + "." + name
+		case *ssa.UnOp:
+			// a spilled parameter: load of the parameter's stack slot
+			if a, ok := x.X.(*ssa.Alloc); ok && x.Op == token.MUL {
+				for _, p := range e.fn.Params {
+					if p.Name() == a.Comment {
+						return p.Name() + "." + name
+					}
+				}
+			}
+			return ""
+		default:
+			return ""
+		}
+	}
+	return ""
+}
+
+// staticCallResultType: the type of result k of some call in the unit named name
+// ("Method" or "param.Method"), nil when there is no such call.
+func (e *FnExec) staticCallResultType(name string, k int) types.Type {
+	for _, b := range e.fn.Blocks {
+		for _, ins := range b.Instrs {
+			ci, ok := ins.(ssa.CallInstruction)
+			if !ok {
+				continue
+			}
+			key, sig, _ := e.calleeKey(ci.Common())
+			if key == "" || sig == nil {
+				continue
+			}
+			ln := lastName(key)
+			if ln != name && e.qualifiedCallName(ci.Common(), ln) != name {
+				continue
+			}
+			if k < sig.Results().Len() {
+				return sig.Results().At(k).Type()
+			}
+		}
+	}
+	return nil
 }
 
 // initCallArgGhosts pre-creates the ghost constants behind callarg(name, k).
@@ -885,6 +953,13 @@ func (e *FnExec) applyContract(st *State, key string, con *Contract, sig *types.
 		}
 		for k := 0; k < rs.Len(); k++ {
 			e.callResults[fmt.Sprintf("%s/%d", lastName(key), k)] = specVar{rvals[k].T, rs.At(k).Type()}
+			if q := e.qualifiedCallName(c, lastName(key)); q != "" {
+				e.callResults[fmt.Sprintf("%s/%d", q, k)] = specVar{rvals[k].T, rs.At(k).Type()}
+				// what a parameter's method returned is an input of the unit (for replay)
+				if so := rvals[k].T.Sort; !con.Pure && (so == "Int" || so == "Bool" || so == StrSort) {
+					e.inputs = append(e.inputs, NamedTerm{fmt.Sprintf("call:%s/%d", q, k), rvals[k].T, typeKey(rs.At(k).Type())})
+				}
+			}
 		}
 	}
 	for _, en := range con.Ensures {
